@@ -1,1 +1,20 @@
-"""C14 contracts (none: see checks/c14.py)."""
+"""C14 - the link name a rename retargets: the page's path relative to the notes directory without its `.zo` extension;
+any other extension (template `.zot`, query page `.zoq`) belongs to the name.  The textual replacement itself is decided by
+the bounded tier (replace_all chains stay undecided in both solvers, DESIGN.md 2.3)."""
+from engine.spec import T, contract
+from contracts import c16  # noqa: F401  (assumed contract of strip_zdir: result is relative(zdir, path))
+from contracts.c16 import relative  # noqa: F401
+
+PATH = T.rec("Path", {"s": T.str()})
+
+
+def link_name(name):
+    """NAME.zo -> NAME; every other name is kept"""
+    return name[:len(name) - 3] if name.endswith(".zo") else name
+
+
+contract(
+    "zorg.shared.common:simplify_fname", props=["C14"], args={"zdir": PATH, "path": PATH}, returns=T.str(), frame=True,
+    ensures={"link-name": "result == link_name(relative(zdir, path))",
+             "only-the-extension-is-removed": "relative(zdir, path) == result or relative(zdir, path) == result + '.zo'"},
+)
